@@ -41,6 +41,10 @@ CLAIMS.update({
    text="Partial (operator lowering in the code generator). The lowering functions VisitUnaryExpr, VisitBinaryExpr (arithmetic, durch, modulo, bitwise, shifts, comparisons, entweder-oder) and VisitTernaryExpr (zwischen) are executed symbolically as real code, once per tuple of operator and operand type classes (exhaustive case split), under trusted llir builder contracts that carry the LLVM type class of every value. Proved for every admissible tuple (admissibility and result type written from the language rules): no path reaches c.err (the 'Unerwarteter Fehler' panic), every builder call gets operands of matching IR type, and the result registers hold the descriptor and an IR value of exactly the type the checker assigns. Casts, text/list operators, assignment/argument/return contexts and linking are not yet under contract; the checker side (no diagnostic <=> admissible) is not yet proved.",
    note="Trusted: llir builder contracts (type classes per LangRef), the induction hypothesis on c.evaluate for sub-expressions (each other Visit* method yields the descriptor and IR type of the checker's type), the compiler's set-up facts wfCompiler (distinct descriptors, IR constants' types), commentNode frame.",
    ref="6/C02"),
+ "C04": dict(
+   text="Partial (rule 'operand of a wrong type', so far). For the type checker's VisitUnaryExpr, VisitBinaryExpr (arithmetic, durch, modulo, bitwise, shifts, comparisons, entweder-oder) and VisitTernaryExpr (zwischen), per operator: an operand tuple that is inadmissible by the language's typing table is reported (the module becomes faulty through the one error path err, which is itself under contract), an admissible one adds no diagnostic, and the result type is the one the table gives. The same table (package ast contracts) is the precondition of the code generator's contracts under C02. isOneOf is proved to be membership up to type equivalence. The remaining rules of the statement (names, redeclaration, constants, loops, returns, visibility, articles) are not yet under contract.",
+   note="Trusted: Evaluate as induction hypothesis for sub-expressions, findOverload frame, ddptypes contracts (C14), diagnostic handler model.",
+   ref="6/C04"),
 })
 NA = {
  "C08": "relational whole-program property (no holder observes another holder's mutation); no function contract within reach states it; the local copy/claim mechanics are covered under C05/C18 where claimed",
